@@ -40,12 +40,47 @@ let parse_args (conv : string -> 'a) (toks : string list) : ('a * Rair.nat) list
         | _ -> raise (Bad "args") in
     go n [] rest
 
+
+(* ---- operands given as RAW read/write facts: uses and defs are derived by the extracted RwRuleModel.classify, the idiom
+   class by RwRuleModel.idiom_of ("J <tag> <same> <imm|-> <osize> <a64> <n> items", item = R name <11 facts> | U name w | D name w) *)
+let alu_of = function
+  | "xor" -> Rair.AXor | "sub" -> Rair.ASub | "or" -> Rair.AOr | "and" -> Rair.AAnd | "add" -> Rair.AAdd | "shl" -> Rair.AShl
+  | "shr" -> Rair.AShr | "sar" -> Rair.ASar | "rol" -> Rair.ARol | "ror" -> Rair.ARor | "pxor" -> Rair.VXor | "psubd" -> Rair.VSubD
+  | "pcmpeqd" -> Rair.VCmpEqD | "pand" -> Rair.VAnd | "por" -> Rair.VOr | _ -> Rair.AOther
+let parse_items (conv : string -> 'a) (toks : string list) : ('a * Rair.nat) list * ('a * Rair.nat) list =
+  match toks with
+  | "J" :: tag :: same :: imm :: osize :: a64 :: n :: rest ->
+    let id = Rair.idiom_of (alu_of tag) (same <> "0") (if imm = "-" then None else Some (cz_of_string imm)) (nat_of_int (int_of_string osize)) in
+    let a64 = a64 <> "0" in
+    let rec go k toks us ds =
+      if k = 0 then (List.rev us, List.rev ds) else
+      match toks with
+      | "U" :: a :: w :: rest -> go (k - 1) rest ((conv a, nat_of_int (int_of_string w)) :: us) ds
+      | "D" :: a :: w :: rest -> go (k - 1) rest us ((conv a, nat_of_int (int_of_string w)) :: ds)
+      | "R" :: a :: rd :: wr :: rm :: wm :: em :: rms :: isrm :: osz :: ismem :: vs :: first :: rest ->
+        let raw = { Rair.r_read = rd <> "0"; r_write = wr <> "0"; r_rmask = cn_of_string rm; r_wmask = cn_of_string wm; r_emask = cn_of_string em;
+                    r_rm = nat_of_int (int_of_string rms); r_isrm = isrm <> "0"; r_osize = nat_of_int (int_of_string osz); r_ismem = ismem <> "0";
+                    r_vsize = nat_of_int (int_of_string vs); r_first = first <> "0" } in
+        let (uw, dw) = Rair.classify a64 id raw in
+        let x = conv a in
+        go (k - 1) rest (List.rev_append (List.map (fun w -> (x, w)) uw) us) (List.rev_append (List.map (fun w -> (x, w)) dw) ds)
+      | _ -> raise (Bad "items") in
+    go (int_of_string n) rest [] []
+  | _ -> raise (Bad "items header")
+let parse_ud conv rest = match rest with
+  | "J" :: _ -> parse_items conv rest
+  | _ -> let (us, rest) = parse_args conv rest in let (ds, _) = parse_args conv rest in (us, ds)
+
 let parse_s (toks : string list) : Rair.sinstr =
   match toks with
-  | "op" :: key :: rest ->
-    let (us, rest) = parse_args vreg_of rest in let (ds, _) = parse_args vreg_of rest in Rair.SOp (intern key, us, ds)
+  | "op" :: key :: rest -> let (us, ds) = parse_ud vreg_of rest in Rair.SOp (intern key, us, ds)
   | ["mov"; d; s; w] -> Rair.SMove (vreg_of d, vreg_of s, nat_of_int (int_of_string w))
-  | "cond" :: key :: l :: rest -> let (us, _) = parse_args vreg_of rest in Rair.SCond (intern key, us, n_of_int (int_of_string l))
+  | "cond" :: key :: l :: rest -> let (us, ds) = parse_ud vreg_of rest in if ds <> [] then raise (Bad "branch with defs"); Rair.SCond (intern key, us, n_of_int (int_of_string l))
+  | "jmptab" :: key :: n :: rest ->
+    let n = int_of_string n in
+    let ls = List.filteri (fun i _ -> i < n) rest and rest = List.filteri (fun i _ -> i >= n) rest in
+    let (us, ds) = parse_ud vreg_of rest in if ds <> [] then raise (Bad "jump with defs");
+    Rair.SJmpTab (intern key, us, List.map (fun l -> n_of_int (int_of_string l)) ls)
   | ["jmp"; l] -> Rair.SJmp (n_of_int (int_of_string l))
   | ["label"; l] -> Rair.SLabel (n_of_int (int_of_string l))
   | "ret" :: rest -> let (us, _) = parse_args vreg_of rest in Rair.SRet us
@@ -53,11 +88,15 @@ let parse_s (toks : string list) : Rair.sinstr =
 
 let parse_t (toks : string list) : Rair.tinstr =
   match toks with
-  | "op" :: key :: rest ->
-    let (us, rest) = parse_args loc_of rest in let (ds, _) = parse_args loc_of rest in Rair.TOp (intern key, us, ds)
+  | "op" :: key :: rest -> let (us, ds) = parse_ud loc_of rest in Rair.TOp (intern key, us, ds)
   | ["mov"; d; s; w; keep; e] -> Rair.TMove (loc_of d, loc_of s, nat_of_int (int_of_string w), keep <> "0", nat_of_int (int_of_string e))
   | ["swap"; a; b; w] -> Rair.TSwap (loc_of a, loc_of b, nat_of_int (int_of_string w))
-  | "cond" :: key :: l :: rest -> let (us, _) = parse_args loc_of rest in Rair.TCond (intern key, us, n_of_int (int_of_string l))
+  | "cond" :: key :: l :: rest -> let (us, ds) = parse_ud loc_of rest in if ds <> [] then raise (Bad "branch with defs"); Rair.TCond (intern key, us, n_of_int (int_of_string l))
+  | "jmptab" :: key :: n :: rest ->
+    let n = int_of_string n in
+    let ls = List.filteri (fun i _ -> i < n) rest and rest = List.filteri (fun i _ -> i >= n) rest in
+    let (us, ds) = parse_ud loc_of rest in if ds <> [] then raise (Bad "jump with defs");
+    Rair.TJmpTab (intern key, us, List.map (fun l -> n_of_int (int_of_string l)) ls)
   | ["jmp"; l] -> Rair.TJmp (n_of_int (int_of_string l))
   | ["label"; l] -> Rair.TLabel (n_of_int (int_of_string l))
   | "ret" :: rest -> let (us, _) = parse_args loc_of rest in Rair.TRet us
